@@ -10,6 +10,7 @@ the consumed length.
 from __future__ import annotations
 
 import sys
+import os
 import time
 
 import z3
@@ -224,7 +225,15 @@ def run_class(item):
                     checks.append(("F-vs-FC/FZ", z3.Extract(1, 0, _t(out[7], 32)) != z3.Concat(z3.Extract(0, 0, _t(out[11], 32)), z3.Extract(0, 0, _t(out[10], 32)))))
                     rs_low = z3.Or(_t(out[8], 32) != 0, _t(out[9], 32) != 0)
                     checks.append(("low-power-state", z3.BoolVal(bool(v["halted"])) != rs_low))
-                    checks.append(("mem", z3.Select(v["mem_final"], x) != z3.Select(r["mem"], x)))
+                    memneq = z3.Select(v["mem_final"], x) != z3.Select(r["mem"], x)
+                    geo = _block_geometry(v, opcode) if opcode in (0xCB, 0xCF) else None
+                    if geo is None:
+                        checks.append(("mem", memneq))
+                    else:
+                        # internal block moves: one obligation per overlap geometry, so that a divergence the unchanged tree
+                        # already has for one geometry (F16) cannot hide a new one for another
+                        for gname, gterm in geo:
+                            checks.append((f"mem@{gname}", z3.And(memneq, gterm)))
             failed = []
             model = None
             unknown = False
@@ -258,6 +267,22 @@ def run_class(item):
     return res
 
 
+def _block_geometry(v, opcode):
+    """Overlap classes of MVL/MVLD (m),(n): distance between the first byte written and the first byte read (mod 256) against I."""
+    # the first data byte read is the read immediately before the first write (reads of BP/PX/PY for address formation come earlier)
+    log = v["log"]
+    wi = next((j for j, (k, _a, _v) in enumerate(log) if k == "w"), None)
+    if wi is None or wi == 0 or log[wi - 1][0] != "r":
+        return None
+    r0, w0 = core.term_of(log[wi - 1][1], 64), core.term_of(log[wi][1], 64)
+    i64 = z3.ZeroExt(48, z3.Extract(15, 0, core.term_of(v["pre"]["I"], 64)))
+    d_up = (w0 - r0) & 0xFF  # destination above source
+    d_dn = (r0 - w0) & 0xFF  # source above destination
+    up = z3.And(d_up != 0, z3.ULT(d_up, i64))
+    dn = z3.And(d_dn != 0, z3.ULT(d_dn, i64))
+    return [("dst-above-src-overlap", up), ("src-above-dst-overlap", z3.And(dn, z3.Not(up))), ("no-overlap", z3.And(z3.Not(up), z3.Not(dn)))]
+
+
 def main(tier):
     t0 = time.time()
     X.setup()
@@ -266,9 +291,13 @@ def main(tier):
     b = build.ensure_built()
     rep = common.Report("C06")
     items = [(tier, c) for c in classes(tier)]
+    only = None
+    if os.environ.get("VERIF_OPCODES"):  # debugging aid: restrict the case split (the vacuity floor then fails the run on purpose)
+        only = {int(x, 16) for x in os.environ["VERIF_OPCODES"].split(",")}
+        items = [it for it in items if it[1][1] in only]
     # control-flow opcodes once more at the end of a 64 KiB page (instruction ends at / return address lies beyond the boundary)
     for c in classes(tier):
-        if c[0] is None and c[1] <= 0x1F:
+        if c[0] is None and c[1] <= 0x1F and (only is None or c[1] in only):
             for pc in ((0x3FFFD, 0x3FFFE) if tier == "quick" else (0x3FFFC, 0x3FFFD, 0x3FFFE, 0x3FFFF, 0x0FFFE)):
                 items.append((tier, c, "edge", pc))
     # parse once in the parent so forked workers share the module image
